@@ -209,7 +209,9 @@ CHECKS['C06'] = dict(
 CHECKS['C10'] = dict(
     text='Lean model of the X12DataNode trees (rose tree, index-path addresses, map data carried on nodes) with theorems queries_agree, '
          'get_set, set_frame, delete_removes_exactly_one, deleted_invisible, insert_after_le_before_gt, insert_keeps_sorted, copy_independent, '
-         'serialise_reflects_edits (per call and forest level), history_refinement (any call history refines the abstract forest), '
+         'serialise_reflects_edits (per call and forest level), the bridge from the context reader (Props/C10Bridge: every tree ctxDoc yields for any text is '
+         'position-sorted at every loop - requested loop other than ISA_LOOP -, so the insertion / placement / serialisation laws hold on reader '
+         'trees without further hypotheses, and every operation keeps the invariant: reader_history), history_refinement (any call history refines the abstract forest), '
          'copy_preserves_format, and copy_shares_nothing on a heap-level model (Model/DataTreeH) in which sharing is expressible. Tied to /repo by random histories of all 12 API calls with valid and invalid '
          'paths on real trees from generated documents: after every call result/exception class and a checksum of every tree are compared with '
          'the model, and every law is evaluated on the real code.',
